@@ -35,6 +35,11 @@
 (* resolved arguments) was already made for an earlier handle of the block  *)
 (* is invoked again (memo / Reused below).  The graph of a block with       *)
 (* several handles is their union and is only constrained for the first.   *)
+(* A pipeline with a user cache (cache_type, cache=True functions) keeps    *)
+(* deferred nodes across calls: the same don't-care holds for its later     *)
+(* handles, wherever they are built, and a handle built inside a            *)
+(* construct_dag() block may then consist partly of nodes created before    *)
+(* the block (TaskGraphOKFor: the graph rule with old nodes).               *)
 (***************************************************************************)
 EXTENDS PipelineCall
 
@@ -101,25 +106,50 @@ Contracted(g) ==
 (* the dependencies at the level of names: a consumer hangs off a picker only for an output it really takes   *)
 (* from upstream, and every parameter a needed function takes from upstream is delivered by an edge, from the *)
 (* picker of that output or directly from the producer's node                                                 *)
-PickerWiringOK(dd, k, g) ==
+PickerWiringOK(dd, k, g, New) ==
     /\ \A e \in g.edges : LET a == NodeOf(g, e[1])  b == NodeOf(g, e[2])
                           IN  (a.kind = "picker" /\ b.kind = "func") =>
                                  LET i == IdxOfName(dd, b.f) IN a.pick \in ParamsOf(dd, i) /\ Source(dd, k, i, a.pick) = "up"
-    /\ \A b \in FuncNodes(g) : LET i == IdxOfName(dd, b.f) IN
+    /\ \A b \in {n \in FuncNodes(g) : IdxOfName(dd, n.f) \in New} : LET i == IdxOfName(dd, b.f) IN
           \A p \in {q \in ParamsOf(dd, i) : Source(dd, k, i, q) = "up"} :
              \E x \in Preds(g, b.id) : LET a == NodeOf(g, x) IN
                  \/ a.kind = "picker" /\ a.pick = p
                  \/ a.kind = "func" /\ a.f = dd.funcs[FuncOf(dd, p)].name
 
-TaskGraphOK(dd, k, o, g) ==
+(* functions reached from the producer of `o` when the traversal does not look behind the functions in Stop *)
+RECURSIVE Trav(_, _, _, _)
+Trav(dd, k, S, Hit) == LET S2 == S \cup UNION {DirectDeps(dd, k, i) : i \in S \ Hit}
+                       IN  IF S2 = S THEN S ELSE Trav(dd, k, S2, Hit)
+Reach(dd, k, o, Stop) == IF Needed(dd, k, o) = {} THEN {} ELSE Trav(dd, k, {FuncOf(dd, o)}, Stop)
+
+(* The rule, for the nodes of the evaluation regardless of when they were created.  Old: needed functions whose *)
+(* node already existed when the recording started (a handle built earlier, before the construct_dag() block,   *)
+(* on a pipeline with a user cache: the new call reuses the cached deferred node).  An old node is not created *)
+(* under the recording, so the edges INTO it are not part of the record; everything else is as without reuse:  *)
+(* every other function reached from the requested output without passing an old node has exactly one node, and *)
+(* the contracted edges are exactly the dependencies whose consumer is such a node; an old node shows up only  *)
+(* as the source of an edge, at most once, and never coincides with another node (unique ids, acyclic).         *)
+TaskGraphOKFor(dd, k, o, g, Old) ==
+    LET Nd == Reach(dd, k, o, Old)   New == Reach(dd, k, o, Old) \ Old IN
     /\ GraphWellFormed(dd, g)
     /\ GraphAcyclic(g)
-    (* one node per function of the evaluation, none for any other function *)
-    /\ \A n \in FuncNodes(g) : IdxOfName(dd, n.f) \in Needed(dd, k, o)
-    /\ \A i \in Needed(dd, k, o) : Cardinality({n \in FuncNodes(g) : n.f = dd.funcs[i].name}) = 1
-    (* contracted edge set = dependencies, exactly *)
-    /\ {<<IdxOfName(dd, NodeOf(g, e[1]).f), IdxOfName(dd, NodeOf(g, e[2]).f)>> : e \in Contracted(g)} = DepEdges(dd, k, o)
-    /\ PickerWiringOK(dd, k, g)
+    (* at most one node per function of the evaluation (exactly one unless old), none for any other function *)
+    /\ \A n \in FuncNodes(g) : IdxOfName(dd, n.f) \in Nd
+    /\ \A i \in Nd : LET c == Cardinality({n \in FuncNodes(g) : n.f = dd.funcs[i].name}) IN c <= 1 /\ (i \in New => c = 1)
+    /\ \A n \in FuncNodes(g) : IdxOfName(dd, n.f) \in Old => \E e \in g.edges : e[1] = n.id
+    (* contracted edge set = dependencies (of the nodes recorded with their inputs), exactly *)
+    /\ {<<IdxOfName(dd, NodeOf(g, e[1]).f), IdxOfName(dd, NodeOf(g, e[2]).f)>> : e \in Contracted(g)}
+         = {e \in DepEdges(dd, k, o) : e[2] \in New}
+    /\ PickerWiringOK(dd, k, g, New)
+TaskGraphOK(dd, k, o, g) == TaskGraphOKFor(dd, k, o, g, {})
+
+(* a pipeline-level user cache (optional field cache_type of the description) and functions with cache=True *)
+UserCache(dd) == "cache_type" \in DOMAIN dd /\ dd.cache_type # ""
+Cached(dd, i) == UserCache(dd) /\ dd.funcs[i].cache
+(* with M = the invocations made for earlier handles: which needed functions MAY be old is the cache's business  *)
+(* (don't-care), but only a cached function invoked before with identical resolved arguments can be            *)
+MayBeOld(dd, k, o, M) == {i \in Needed(dd, k, o) : Cached(dd, i) /\ <<i, ArgsOf(dd, k, i)>> \in M}
+TaskGraphOKReuse(dd, k, o, g, M) == \E Old \in SUBSET MayBeOld(dd, k, o, M) : TaskGraphOKFor(dd, k, o, g, Old)
 
 (* The shape lazy.py records today, for documentation and for exercising TaskGraphOK in the model: one node  *)
 (* per needed function (id = its index), one picker per output name of every needed tuple-output function     *)
@@ -132,23 +162,29 @@ OutPos(dd, n, i) == IF n \in OutputsOf(dd, i)
                     THEN CHOOSE m \in DOMAIN dd.funcs[i].outputs : dd.funcs[i].outputs[m] = n
                     ELSE Len(dd.funcs[i].outputs) + OutPos(dd, n, i + 1)
 PId(dd, n)       == NF(dd) + OutPos(dd, n, 1)
-ReferenceGraph(dd, k, o) ==
-    LET Nd    == Needed(dd, k, o)
-        picks == {n \in AllOutputs(dd) : FuncOf(dd, n) \in Nd /\ Multi(dd, FuncOf(dd, n)) /\ ~PHas(k, n)}
+(* Hit: needed functions answered from the user cache; the traversal from the requested output stops there.   *)
+ReferenceGraphFor(dd, k, o, Hit) ==
+    LET Tr    == Reach(dd, k, o, Hit)
+        New   == Tr \ Hit
+        picks == {n \in AllOutputs(dd) : FuncOf(dd, n) \in Tr /\ Multi(dd, FuncOf(dd, n)) /\ ~PHas(k, n)}
         fnode(i) == [id |-> i, kind |-> "func", f |-> dd.funcs[i].name, pick |-> ""]
         pnode(n) == [id |-> PId(dd, n), kind |-> "picker", f |-> dd.funcs[FuncOf(dd, n)].name, pick |-> n]
         ups(i)   == {p \in ParamsOf(dd, i) : Source(dd, k, i, p) = "up"}
-    IN  [nodes |-> {fnode(i) : i \in Nd} \cup {pnode(n) : n \in picks},
-         edges |-> {<<FuncOf(dd, n), PId(dd, n)>> : n \in picks}
-                   \cup UNION {{IF p \in picks THEN <<PId(dd, p), i>> ELSE <<FuncOf(dd, p), i>> : p \in ups(i)} : i \in Nd}]
+        edges    == {<<FuncOf(dd, n), PId(dd, n)>> : n \in picks}
+                    \cup UNION {{IF p \in picks THEN <<PId(dd, p), i>> ELSE <<FuncOf(dd, p), i>> : p \in ups(i)} : i \in New}
+    IN  [nodes |-> {fnode(i) : i \in New} \cup {fnode(i) : i \in {j \in Tr \cap Hit : \E e \in edges : e[1] = j}}
+                   \cup {pnode(n) : n \in picks},
+         edges |-> edges]
+ReferenceGraph(dd, k, o) == ReferenceGraphFor(dd, k, o, {})
 
 ---------------------------------------------------------------------------
 (* Actions.  Eager calls of PipelineCall stay available when no handle is alive (the eager twin).             *)
 
 LReset  == /\ phase' = "idle" /\ out' = "" /\ kw' = <<>> /\ mode' = "call" /\ done' = {} /\ UNCHANGED d
            /\ lazy' = FALSE /\ dag' = FALSE /\ nev' = 0 /\ count' = Zero(d) /\ val' = NoVal /\ graph' = NoGraph
-(* the handle is gone and so is the construct_dag() block, if any *)
-LFinish == LReset /\ memo' = {} /\ nh' = 0
+(* the handle is gone and so is the construct_dag() block, if any; what the pipeline's own cache holds stays *)
+Invoked == {<<i, ArgsOf(d, kw, i)>> : i \in done}
+LFinish == LReset /\ memo' = {x \in memo \cup Invoked : Cached(d, x[1])} /\ nh' = 0
 
 (* pipeline(o, **k) is entered on a lazy pipeline; g: under construct_dag() (necessarily so inside an open block) *)
 LBegin(o, k, m, g) == /\ phase = "idle" /\ ~lazy /\ (nh > 0 => g)
@@ -157,13 +193,13 @@ LBegin(o, k, m, g) == /\ phase = "idle" /\ ~lazy /\ (nh > 0 => g)
                       /\ UNCHANGED <<memo, nh>>
 
 (* the call returns a deferred handle.  No Call step is enabled in phase "building": no user function runs.     *)
-(* Don't-care: inside a construct_dag() block that already served a handle (nh > 0) results may come from the  *)
-(* block's cache, and for those the code documents that it cannot tell which keywords were used ("result was   *)
+(* Don't-care: inside a construct_dag() block that already served a handle (nh > 0), or on a pipeline with a   *)
+(* user cache that already served one (memo # {}), results may come from the cache, and for those the code documents that it cannot tell which keywords were used ("result was   *)
 (* from cache, so we don't know which parameters were used", Pipeline.run): a surplus keyword may then be       *)
 (* accepted silently instead of refused; the handle's value is still Eval, which ignores keywords it does not  *)
 (* consult.                                                                                                     *)
 Build == /\ lazy /\ phase = "building"
-         /\ Defined(d, kw, out) /\ (nh = 0 => StrictSurplus(d, kw, out) = {}) /\ ~PHas(kw, out)
+         /\ Defined(d, kw, out) /\ ((nh = 0 /\ memo = {}) => StrictSurplus(d, kw, out) = {}) /\ ~PHas(kw, out)
          /\ phase' = "built"
          /\ UNCHANGED <<d, out, kw, mode, done, lvars>>
 (* argument errors are detected while building, as in eager mode, and equally without running anything *)
@@ -173,7 +209,6 @@ BuildRaiseOutputSupplied == lazy /\ phase = "building" /\ PHas(kw, out) /\ LFini
 
 (* needed functions whose identical invocation was already made for an earlier handle of the open block *)
 Reused  == {j \in Needed(d, kw, out) : <<j, ArgsOf(d, kw, j)>> \in memo}
-Invoked == {<<i, ArgsOf(d, kw, i)>> : i \in done}
 (* Call of PipelineCall, except that a dependency may also be satisfied by a reused node *)
 SharedCall(i, args) == /\ phase = "running"
                        /\ i \in Needed(d, kw, out) \ done
@@ -182,8 +217,10 @@ SharedCall(i, args) == /\ phase = "running"
                        /\ args = ArgsOf(d, kw, i)
                        /\ done' = done \cup {i}
                        /\ UNCHANGED <<d, phase, out, kw, mode>>
-(* everything needed ran (or is reused from the block), nothing else *)
-Complete == done \subseteq Needed(d, kw, out) /\ Needed(d, kw, out) \ done \subseteq Reused
+(* what has to run: everything reached from the requested output without looking behind a reused node *)
+MustRun  == Reach(d, kw, out, Reused) \ Reused
+(* everything that has to run ran, nothing but needed functions ran (memo = {}: done = Needed) *)
+Complete == done \subseteq Needed(d, kw, out) /\ MustRun \subseteq done
 
 (* first evaluate(): the Call steps of PipelineCall (needed, not yet done, after its dependencies, resolved arguments) *)
 EvalBegin == /\ lazy /\ phase = "built" /\ nev = 0
@@ -214,9 +251,10 @@ ReEvaluateFull(pairs) == /\ lazy /\ phase = "built" /\ nev >= 1 /\ mode = "full"
                          /\ pairs = FullValue(d, kw, out)
                          /\ nev' = nev + 1
                          /\ UNCHANGED <<cvars, lazy, dag, count, val, graph, memo, nh>>
-(* the graph recorded under construct_dag(), observed at any time after the (first) handle of the block exists *)
+(* the graph recorded under construct_dag(), observed at any time after the (first) handle of the block exists; *)
+(* memo = {}: TaskGraphOK.  Nodes cached by an earlier handle (built before the block) may take part           *)
 Graph(g) == /\ lazy /\ dag /\ phase = "built" /\ nh = 0
-            /\ TaskGraphOK(d, kw, out, g)
+            /\ TaskGraphOKReuse(d, kw, out, g, memo)
             /\ graph' = g
             /\ UNCHANGED <<cvars, lazy, dag, nev, count, val, memo, nh>>
 (* the handle is dropped (and its construct_dag() block left) *)
@@ -227,7 +265,7 @@ LDropKeep == /\ lazy /\ dag /\ phase = "built"
              /\ memo' = memo \cup Invoked /\ nh' = nh + 1
 (* the block is left without a live handle *)
 CloseBlock == /\ ~lazy /\ phase = "idle" /\ nh > 0
-              /\ nh' = 0 /\ memo' = {}
+              /\ nh' = 0 /\ memo' = {x \in memo : Cached(d, x[1])}
               /\ UNCHANGED <<cvars, lazy, dag, nev, count, val, graph>>
 
 (* eager calls (PipelineCall) while no handle is alive and no block is open *)
@@ -241,12 +279,13 @@ AtMostOncePerNode     == \A i \in FIdx(d) : count[i] <= 1
 (* exactly once for every needed function, however often evaluate() was called (reused nodes of a shared block: don't-care) *)
 ExactlyOnceNeeded     == (lazy /\ nev >= 1) => \A i \in FIdx(d) :
                              /\ (i \notin Needed(d, kw, out) => count[i] = 0)
-                             /\ (i \in Needed(d, kw, out) \ Reused => count[i] = 1)
+                             /\ (i \in MustRun => count[i] = 1)
 CountIsDone           == lazy => \A i \in FIdx(d) : count[i] = IF i \in done THEN 1 ELSE 0
 ValueIsEval           == (lazy /\ nev >= 1) => val = Eval(d, kw, out)
-GraphIsOK             == (lazy /\ graph # NoGraph) => (dag /\ nh = 0 /\ TaskGraphOK(d, kw, out, graph))
+GraphIsOK             == (lazy /\ graph # NoGraph) => (dag /\ nh = 0 /\ TaskGraphOKReuse(d, kw, out, graph, memo))
 LazyTypeOK            == /\ phase \in {"idle", "building", "built", "running"}
                          /\ lazy \in BOOLEAN /\ dag \in BOOLEAN /\ nev \in Nat /\ nh \in Nat
                          /\ (~lazy => (phase \in {"idle", "running"} /\ ~dag /\ nev = 0 /\ val = NoVal /\ graph = NoGraph))
-                         /\ (nh = 0 => memo = {}) /\ ((lazy /\ nh > 0) => dag)
+                         /\ ((nh = 0 /\ ~UserCache(d)) => memo = {}) /\ ((lazy /\ nh > 0) => dag)
+                         /\ ((~lazy /\ nh = 0) => \A x \in memo : Cached(d, x[1]))
 =============================================================================
